@@ -1,50 +1,66 @@
 """C39 - header transmission respects credits, numbers consecutively, retires on matching LGOOD, retransmits after LBAD.
 
 DUT: luna.gateware.usb.usb3.link.transmitter.PacketTransmitter, stand-alone (its RawPacketTransmitter and
-LinkCommandDetector are the real sub-blocks).  Driven at `sink` (the received word stream carrying the partner's link
+LinkCommandDetector are the real sub-blocks), inside a two-line wrapper that defines the `ss` clock domain so that the
+harness can pulse the domain's synchronous reset.  Driven at `sink` (the received word stream carrying the partner's link
 commands), `queue` (protocol-layer HeaderQueue), `data_sink` (payload for data headers), `source.ready`, `enable` and
 `lrty_pending` (in the real link layer the header receiver raises it the cycle after `retry_required` and drops it once it
 has sent LRTY; the harness does the same with a random LRTY latency).
 
-Workload (one case = 1-3 enable epochs of one transmitter, 2000-6000 cycles, 30-120 headers):
-  * protocol layer: uniquely tagged headers (index mixed into DW0/1/2), 25 % data headers with 0-6 word payloads, bursts
-    (valid again in the cycle after an acceptance) and gaps; junk in the link-layer fields of the queued header;
+Building the simulator costs seconds (deep CRC expressions), a simulated cycle costs 0.3 ms, so one case = one
+elaboration and 16 independent *sessions*: hard reset of every register, new profile, new reference model, 1-3 enable
+epochs of 20-50 headers each (about 20 k cycles and 550 headers per case).
+
+Workload of a session:
+  * protocol layer: uniquely tagged headers (index mixed into DW0/1/2), 0/25/50 % data headers with 1-6 word payloads or
+    ZLP, bursts (valid again in the cycle after an acceptance) and gaps, junk in the link-layer fields of the queued
+    header; in 30 % of the sessions the offers are aimed at the cycle in which an LBAD / LGOOD is decoded;
   * reactive link partner: after enable it advertises LGOOD_n (n random, often 7) and LCRD A..D (all at once, or only a
     few at first); it "receives" every header the DUT puts on the wire, answers LGOOD_seq and later LCRD_x with delays
-    drawn from the case profile (fast / slow acknowledgement, credit starvation), or declares the header corrupted and
-    answers LBAD after 0-30 cycles (so that the LBAD lands at every offset of the following header, including the cycle
+    drawn from the session profile (fast / slow acknowledgement, credit starvation), or declares the header corrupted and
+    answers LBAD after 0-30 cycles (so that the LBAD lands at every offset of the following packet, including the cycle
     it ends) and then ignores everything until the LRTY went out; retransmitted headers are corrupted again with a
-    separate (high) probability, so second LBADs arrive during a retransmission run;
+    separate (high) probability, so second and third LBADs arrive during a retransmission run;
   * hostile histories: spurious LBAD, duplicate LGOOD (mismatch, link continues), LGOOD with a wrong number, lost LGOOD
     (every later one mismatches), duplicated / skipped LCRD letter, link commands with a bad CRC-5 / unequal replicas / a
-    K symbol inside (must be ignored), unrelated commands (LRTY, LGO_Ux, LAU, LXU, LPMA, LUP, LDN), noise words and
-    invalid cycles on the sink, invalid cycles between the SLC framing and the command word;
+    K symbol inside (must be ignored, the intact command follows), unrelated commands (LRTY, LGO_Ux, LAU, LXU, LPMA, LUP,
+    LDN), noise words, packet framing and SLC framing with `valid` low on the sink, invalid cycles between the SLC framing
+    and the command word;
   * `source.ready` profiles (always / random / bursty); LRTY latency 2-60 cycles;
-  * recovery emulation: after a sequence the partner cannot continue from (lost LGOOD, sequence mismatch) or at random,
-    `enable` is dropped when everything is quiet and raised again: new advertisement, fresh credits, new numbering.
+  * recovery emulation: `enable` is dropped when everything is quiet, after a sequence the partner cannot continue from
+    (lost LGOOD, sequence mismatch), or (25 % of the epochs) at an arbitrary moment; it is raised again after the wire
+    has drained: new advertisement, fresh credits, new numbering.
 
 Monitors (every cycle, on sampled values): independent decoder of the sink stream (USB 3.2 7.2.2: SLC SLC SLC EPF, then two
 equal 16-bit copies of 11 information bits + CRC-5, `rv.ref.crc.usb3_crc5`); queue transfers (`valid & ready`); parser of
 the `source` stream (SHP SHP SHP EPF followed by four words; sequence number = DW3[18:16], DL = DW3[25], USB 3.2 figure
-7-5); `source.valid`, `lrty_pending`, `enable`.
+7-5; end of a packet = transfer followed by a cycle without `valid`); `source.valid`, `lrty_pending`.
 
-Oracle (reference model, nothing taken from luna):
+Oracle (reference model `Oracle`/`Epoch`, nothing taken from luna):
   * credits = well-formed LCRDs seen in this epoch minus headers taken from the queue; a queue transfer with zero credits
-    is a violation (a credit counts from the cycle its command word is on the sink, i.e. never later than any DUT);
+    is a violation (a credit counts from the cycle its command word is on the sink, i.e. never later than in any DUT);
   * every header on the wire must be the next one of the accepted list (content compared through the unique tags); it
-    needs an advertisement in this epoch; its sequence number is (advertised + 1 + index) mod 8;
+    needs an advertisement in this epoch; its sequence number is (advertised + 1 + index) mod 8, first time and every time;
   * the oldest unacknowledged header is retired by an LGOOD carrying its number and by nothing else;
   * an LBAD rewinds the expected wire order to the oldest unacknowledged header; everything from there is expected again,
     in order, with DL = 1, before any new header; a header that was already on its way when the LBAD arrived may
     complete: headers that *start* within G = 8 cycles after the LBAD word may follow either the old or the new order;
   * bounded progress: an owed header must start within 80 idle cycles (no `source.valid`, no `lrty_pending`), the queue
     must take a header within 24 cycles while a credit is available.
+After the first violation of a session nothing more is judged in that session (no follow-up alarms; the next session
+starts from reset).  The mechanism names of the defects found on the unchanged tree (findings/C39.md) are decided from
+the observed pattern only: DL of the packet that was on the wire when the LBAD arrived, LBAD word one cycle before the
+end of a packet, acceptance in the cycle after the LBAD word, previous epoch closed with an open retry.
 
 Not judged: DL on headers that are transmitted for the first time (USB 3.2 allows DL on delayed headers), CRCs and framing
 (C36), payloads, hub depth / deferred, `recovery_required`, the 5 ms credit timer, whether retransmission waits for LRTY;
 liveness after a mismatching LGOOD / LCRD (the link is then supposed to enter recovery); an LCRD with an unexpected letter
-counts as an advertised credit for the safety check (lenient); headers that were started up to G cycles after `enable`
-fell; epochs in which more than four headers are unacknowledged (only possible after a lost LGOOD).
+counts as an advertised credit for the safety check (lenient: "LCRD accepted in any order" is not reported); headers that
+were started up to G cycles after `enable` fell; epochs in which more than four headers are unacknowledged (only possible
+after a lost LGOOD).  Deviation from DESIGN.md section 7: enable epochs (link re-entry) are part of the workload although
+the quantifier names only link-command histories and queue timings - `enable` is `ltssm.link_ready` in the link layer, a
+retry interrupted by recovery is an ordinary history, and what is judged there is the statement itself (no header
+without advertisement / credit); 48 long cases instead of 1 k short ones because of the elaboration cost.
 """
 import os
 import sys
@@ -56,10 +72,11 @@ TRACE = bool(os.environ.get("C39_TRACE"))
 
 PROPERTY = "C39"
 CASES = {"quick": 48, "thorough": 640}
-RULE = ("case = 1-3 enable epochs on one PacketTransmitter; profile = (ack delay, credit delay, corruption probability for new and "
-        "for retransmitted headers, mismatch/loss injections, source.ready profile, LRTY latency, queue burstiness); the partner is "
-        "reactive, LBAD offsets 0-30 cycles after a header; non-trivial = >= 1 LBAD with >= 2 unacknowledged headers, >= 1 queue "
-        "offer without credit and >= 10 headers on the wire; distinct = hash of profile, queued headers and every emitted link command")
+RULE = ("case = 16 sessions (hard reset between them) of 1-3 enable epochs on one PacketTransmitter; session profile = (ack delay, credit "
+        "delay, corruption probability for new and for retransmitted headers, mismatch/loss injections, source.ready profile, LRTY "
+        "latency, queue burstiness or offers aimed at the LBAD/LGOOD decode cycle); the partner is reactive, LBAD 0-30 cycles after a "
+        "header; non-trivial = >= 1 LBAD with >= 2 unacknowledged headers, >= 1 queue offer without credit and >= 10 headers on the "
+        "wire; distinct = hash of the profiles, queued headers and every emitted link command")
 REQUIRED_BINS = ["disable_during_retry", "disable_quiet", "disable_busy", "queue_valid_without_credit", "accept_on_last_credit", "unacked_2_at_accept", "unacked_3plus_at_accept",
                  "lbad_unacked_0", "lbad_unacked_1", "lbad_unacked_2", "lbad_unacked_3plus", "lbad_header_in_flight", "lbad_wire_idle",
                  "lbad_during_retransmission_run", "lbad_word_near_header_end", "new_header_after_retransmission",
@@ -73,7 +90,8 @@ REQUIRED_EVENTS = ["cycles", "commands_decoded", "headers_accepted", "headers_on
 ASSUMPTIONS = ["partner acknowledges only headers that were completely transmitted; LGOOD precedes the LCRD of the same header",
                "lrty_pending rises in the cycle after retry_required (as HeaderPacketReceiver drives it) and stays 2-60 cycles",
                "a header that starts <= 8 cycles after an LBAD word may still follow the pre-LBAD order",
-               "enable is toggled only while the sink is between commands and (except in the dedicated bin) the wire is idle",
+               "enable is toggled only while the sink is between commands; it is raised again only after the wire has drained",
+               "after the first violation of a session the rest of that session is not judged",
                "DL of first transmissions, recovery_required, CRC/framing, payload and the credit timer are not judged"]
 
 # K symbols, USB 3.2 table 6-1; byte 0 of a word is the first symbol
@@ -130,6 +148,7 @@ class Epoch:
         self.run_len = 0
         self.last_lbad = -100
         self.last_retire = -100
+        self.last_dl = False     # DL of the most recent header on the wire
         self.accept_with_lbad = None   # index of a header that was accepted in the cycle after an LBAD word
         self.lbad_open = False   # an LBAD was seen and the transmitter has not caught up (everything accepted transmitted) since
 
@@ -150,6 +169,7 @@ class Oracle:
         self.flight = None       # start cycle of the header currently on the wire
         self.flight_lbads = []
         self.last_end = -100
+        self.last_start = -100
 
     def report(self, mech, detail):
         if self.tainted:
@@ -169,7 +189,7 @@ class Oracle:
             self._resolve_suspect("epoch_end")
             self.ep.closed = cyc
             self.prev_closed = cyc
-            self.prev_retry_open = bool(self.ep.pend) or self.ep.lbad_open
+            self.prev_retry_open = bool(self.ep.pend) or self.ep.lbad_open or self.ep.last_dl
             self.res.bin("disable_during_retry" if self.prev_retry_open else ("disable_quiet" if self.quiet() else "disable_busy"))
             self.ep = None
         self.idle = self.qwait = 0
@@ -262,6 +282,7 @@ class Oracle:
         ep.A.append(hdr)
         if len(ep.A) - ep.k > BUFFERS:
             ep.overflow = True
+            ep.suspect = None
         if len(ep.A) > 8:
             res.bin("sequence_wrapped")
 
@@ -271,8 +292,8 @@ class Oracle:
             for p in self.ep.pend:
                 if p["t"] == cyc - 1:
                     p["at_done"] = True
-                    if dl:
-                        p["stale_dl"] = True
+                if dl and self.last_start <= p["t"] <= cyc:
+                    p["stale_dl"] = True          # the LBAD arrived while a packet sent in a retry was on the wire
 
     def header_started(self, cyc):
         self.flight = cyc
@@ -310,6 +331,7 @@ class Oracle:
         ep = self.ep
         lbads_in_flight, self.flight_lbads, self.flight = self.flight_lbads, [], None
         self.last_end = e
+        self.last_start = s
         self.idle = 0
         what = "header dw0=%08x dw1=%08x dw2=%08x seq=%d dl=%d on the wire in cycles %d..%d" % (dw0, dw1, dw2, seq, dl, s, e)
         if ep is None or s < ep.start:
@@ -325,6 +347,7 @@ class Oracle:
                 self.report("stale_header_after_disable_during_retry" if self.prev_retry_open else "header_transmitted_without_advertisement",
                             what + "; enabled since cycle %d, no LGOOD advertisement yet" % ep.start)
             return None
+        ep.last_dl = bool(dl)
         if ep.overflow:
             res.unjudged += 1
             return None
@@ -353,7 +376,7 @@ class Oracle:
             for p in ep.pend:
                 if p["t"] + G < s:
                     continue                      # soft and past its window: it was honoured by the first transmission
-                if p["k"] == idx and idx >= ep.hw:
+                if p["k"] == idx and idx >= ep.hw and p["t"] <= s:
                     p["soft"] = True              # cannot tell whether this first transmission already answers the LBAD
                 keep.append(p)
             ep.pend = keep
@@ -384,7 +407,7 @@ class Oracle:
             if idx > exp:
                 if exp < ep.hw:
                     mech = "retransmission_skipped_unacked_header"
-                    if applied is not None and applied["stale_dl"] and idx == exp + 1:
+                    if applied is not None and applied["stale_dl"]:
                         mech = "lbad_during_retry_oldest_unacked_skipped"
                 else:
                     mech = "new_header_skipped"
@@ -453,10 +476,10 @@ class Oracle:
                     self.idle = 0
                     return
                 mech = "retransmission_not_started" if ep.pend else ("retransmission_run_incomplete" if eff < ep.hw else "accepted_header_not_transmitted")
-                if ep.pend and ep.pend[-1]["stale_dl"]:
-                    mech = "lbad_during_retry_forgotten"
-                elif mech == "accepted_header_not_transmitted" and ep.accept_with_lbad is not None and eff == len(ep.A) - 1:
+                if ep.accept_with_lbad is not None and eff == len(ep.A) - 1:
                     mech = "header_accepted_in_lbad_cycle_then_last_header_never_transmitted"
+                elif ep.pend and ep.pend[-1]["stale_dl"]:
+                    mech = "lbad_during_retry_forgotten"
                 self.report(mech, "cycle %d: %d idle cycles although header index %d of %d accepted is owed (retired %d, transmitted %d)"
                             % (cyc, self.idle, eff, len(ep.A), ep.k, ep.hw))
                 self.idle = 0
@@ -612,6 +635,12 @@ def run_case(rng, tier, res):
             self.push(due, cmd, sub, kind)
             return due
 
+        def near(self, expected):
+            """a sequence number that is not the expected one: mostly one bit away from it"""
+            if rng.random() < 0.7:
+                return expected ^ (1 << rng.randrange(3))
+            return rng.choice([n for n in range(8) if n != expected])
+
         def abort(self, now):
             if st["abort_at"] is None:
                 st["abort_at"] = now + rng.randint(60, 250)
@@ -640,7 +669,12 @@ def run_case(rng, tier, res):
                 return
             bad = rng.random() < (P["p_bad_retx"] if dl else P["p_bad"])
             if bad:
-                due = self.chain(now + rng.randint(0, P["lbad_delay_max"]), LBAD, 0)
+                due = now + rng.randint(0, P["lbad_delay_max"])
+                if seq == self.rx_expected and rng.random() < 6 * P["p_wrong_lgood"]:
+                    # a stray LGOOD whose number is close to the one the transmitter waits for, then the LBAD: the header must
+                    # not be retired by it
+                    due = self.chain(due, LGOOD, self.near(seq), "mismatch") + 2
+                due = self.chain(due, LBAD, 0)
                 self.ignoring = True
                 self.lbad_cycle = due
                 return
@@ -662,12 +696,11 @@ def run_case(rng, tier, res):
                 return
             r -= P["p_lost_lgood"]
             if r < P["p_wrong_lgood"]:
-                wrong = rng.choice([n for n in range(8) if n != seq])
-                self.chain(due, LGOOD, wrong, "mismatch")
+                self.chain(due, LGOOD, self.near(seq), "mismatch")
                 due += 2
             due = self.chain(due, LGOOD, seq)
             if rng.random() < P["p_dup_lgood"]:
-                self.chain(due + rng.randint(2, 6), LGOOD, rng.choice([seq, seq, (seq - 1) % 8, (seq + 2) % 8]), "mismatch")
+                self.chain(due + rng.randint(2, 6), LGOOD, rng.choice([seq, seq, self.near((seq + 1) % 8)]), "mismatch")
             self.push(due + rng.randint(*P["crd_delay"]), LCRD, None)
 
         def spurious(self, now):
